@@ -285,6 +285,10 @@ class Inliner:
         if isinstance(f, ast.Attribute) and isinstance(f.value, ast.Name) and (f.value.id, f.attr) in self.methods \
                 and self.methods[(f.value.id, f.attr)].static and f.value.id not in local_names:
             return self.methods[(f.value.id, f.attr)]
+        if isinstance(f, ast.Attribute) and isinstance(f.value, ast.Name) and f.value.id in ("self", "cls") and cls_name is not None \
+                and (cls_name, f.attr) in self.methods and self.methods[(cls_name, f.attr)].static:
+            # a static helper (its name is unique in the program) reached through the instance or the class object
+            return self.methods[(cls_name, f.attr)]
         return None
 
     def _bind(self, h, call, pre):
@@ -1655,6 +1659,28 @@ def _eval_order(node):
     yield node
 
 
+def _first_match_form(loop):
+    """(PRE, the If, REST) when the loop body is `PRE; if C: T; break [else: F]; REST` with no other break/continue/return-free
+    constraint violated (PRE/T/F/REST contain no break or continue of this loop, no yield, no nested def), else None"""
+    idx = [k for k, b in enumerate(loop.body) if isinstance(b, ast.If) and b.body and isinstance(b.body[-1], ast.Break)]
+    if len(idx) != 1:
+        return None
+    k = idx[0]
+    iff = loop.body[k]
+    pre, rest = loop.body[:k], loop.body[k + 1:]
+
+    def clean(stmts):
+        for b in stmts:
+            for x in ast.walk(b):
+                if isinstance(x, (ast.Break, ast.Continue, ast.Yield, ast.YieldFrom, ast.FunctionDef, ast.Lambda, ast.ClassDef)):
+                    return False
+        return True
+
+    if not (clean(pre) and clean(iff.body[:-1]) and clean(iff.orelse) and clean(rest)):
+        return None
+    return pre, iff, rest
+
+
 def normalise_table_unroll(tree):
     """a `for` statement or a list/set/dict comprehension that walks a small literal table - written in place, bound once to a local
     of the same function, or bound once at module level - is the sequence of its bodies with the table's entries written out:
@@ -1810,13 +1836,42 @@ def normalise_table_unroll(tree):
                 while i < len(stmts):
                     st = stmts[i]
                     i += 1
-                    if not isinstance(st, ast.For) or st.orelse:
+                    if not isinstance(st, ast.For):
                         continue
                     tab = table_for(st.iter, fn)
                     rows = rows_of(tab, st.target) if tab is not None else None
                     if rows is None:
                         continue
                     tnames = set(rows[0])
+                    brk = _first_match_form(st)
+                    if brk is not None:
+                        # first-match search: `for row in TABLE: PRE; if C: T; break` [else: F; REST] ... `else: E` is the chain
+                        # PRE1; if C1: T1 else: F1; REST1; PRE2; if C2: T2 else: ... E
+                        pre, iff, rest = brk
+                        roots = entry_roots(rows)
+                        assigned = set()
+                        for b in st.body:
+                            for x in ast.walk(b):
+                                if isinstance(x, (ast.Name, ast.Attribute)) and isinstance(x.ctx, (ast.Store, ast.Del)):
+                                    assigned.add(norm_name(x))
+                        later = [x for x in ast.walk(fn) if isinstance(x, ast.Name) and x.id in tnames and isinstance(x.ctx, ast.Load) and not any(x is y for b in st.body for y in ast.walk(b))]
+                        if any(a == r or r.startswith(a + ".") for a in assigned for r in roots) or later or (assigned & tnames) \
+                                or (isinstance(st.iter, ast.Name) and st.iter.id in mod_tables and tab is mod_tables[st.iter.id] and {r.split(".")[0] for r in roots} & local_binds(fn)):
+                            continue
+                        chain = [_clone(x) for x in st.orelse]
+                        for r in reversed(rows):
+                            new_if = ast.If(test=subst(iff.test, r), body=[subst(b, r) for b in iff.body[:-1]] or [ast.Pass()],
+                                            orelse=[subst(b, r) for b in iff.orelse] + [subst(b, r) for b in rest] + chain)
+                            ast.copy_location(new_if, st)
+                            chain = [ast.copy_location(subst(b, r), st) for b in pre] + [new_if]
+                        for x in chain:
+                            ast.fix_missing_locations(x)
+                        stmts[i - 1:i] = chain
+                        i += len(chain) - 1
+                        n += 1
+                        continue
+                    if st.orelse:
+                        continue
                     if any(isinstance(x, (ast.Break, ast.Continue, ast.Yield, ast.YieldFrom, ast.FunctionDef, ast.Lambda, ast.ClassDef)) for b in st.body for x in ast.walk(b)):
                         continue
                     if any(isinstance(x, ast.Name) and x.id in tnames and isinstance(x.ctx, (ast.Store, ast.Del)) for b in st.body for x in ast.walk(b)):
@@ -1894,6 +1949,67 @@ def normalise_try_getattr(tree):
                 ast.fix_missing_locations(new)
                 stmts[stmts.index(st)] = new
                 n += 1
+    return n
+
+
+def normalise_enumerate_live(tree):
+    """`for i, v in enumerate(L): BODY` over a local list L that the function never resizes or rebinds after creating it, with v only
+    read in BODY, is `for i in range(len(L)): v = L[i]; BODY` (a list iterator hands out the element stored at index i when the
+    loop arrives there, and stops at the list's length)"""
+    n = 0
+    RESIZE = {"append", "extend", "insert", "pop", "remove", "clear", "sort", "reverse"}
+    for fn in [f for f in ast.walk(tree) if isinstance(f, (ast.FunctionDef, ast.AsyncFunctionDef))]:
+        for node in list(ast.walk(fn)):
+            for field in ("body", "orelse", "finalbody"):
+                stmts = getattr(node, field, None)
+                if not isinstance(stmts, list) or not stmts or not isinstance(stmts[0], ast.stmt):
+                    continue
+                for st in list(stmts):
+                    if not (isinstance(st, ast.For) and isinstance(st.iter, ast.Call) and isinstance(st.iter.func, ast.Name) and st.iter.func.id == "enumerate"
+                            and len(st.iter.args) == 1 and not st.iter.keywords and isinstance(st.iter.args[0], ast.Name)
+                            and isinstance(st.target, ast.Tuple) and len(st.target.elts) == 2 and all(isinstance(e, ast.Name) for e in st.target.elts)):
+                        continue
+                    L, iv, vv = st.iter.args[0].id, st.target.elts[0].id, st.target.elts[1].id
+                    binds = [x for x in ast.walk(fn) if isinstance(x, ast.Name) and x.id == L and isinstance(x.ctx, (ast.Store, ast.Del))]
+                    if len(binds) != 1 or any(a.arg == L for a in fn.args.posonlyargs + fn.args.args + fn.args.kwonlyargs):
+                        continue
+                    creators = [a for a in ast.walk(fn) if isinstance(a, ast.Assign) and len(a.targets) == 1 and a.targets[0] is binds[0]]
+                    if len(creators) != 1 or not (isinstance(creators[0].value, (ast.List, ast.ListComp)) or (isinstance(creators[0].value, ast.BinOp) and isinstance(creators[0].value.op, ast.Mult)
+                                                                                                       and isinstance(creators[0].value.left, ast.List))):
+                        continue
+                    resized = False
+                    for x in ast.walk(fn):
+                        if isinstance(x, ast.Call) and isinstance(x.func, ast.Attribute) and isinstance(x.func.value, ast.Name) and x.func.value.id == L and x.func.attr in RESIZE:
+                            resized = True
+                        if isinstance(x, ast.AugAssign) and isinstance(x.target, ast.Name) and x.target.id == L:
+                            resized = True
+                        if isinstance(x, ast.Delete) and any(isinstance(t, ast.Subscript) and isinstance(t.value, ast.Name) and t.value.id == L for t in x.targets):
+                            resized = True
+                        if isinstance(x, ast.Assign) and any(isinstance(t, ast.Subscript) and isinstance(t.slice, ast.Slice) and isinstance(t.value, ast.Name) and t.value.id == L for t in x.targets):
+                            resized = True
+                    # L must not escape (be passed or stored elsewhere) either: only subscripts, len(L) and the enumerate itself
+                    for x in ast.walk(fn):
+                        if isinstance(x, ast.Name) and x.id == L and isinstance(x.ctx, ast.Load):
+                            par_ok = False
+                            for y in ast.walk(fn):
+                                if isinstance(y, ast.Subscript) and y.value is x:
+                                    par_ok = True
+                                elif isinstance(y, ast.Call) and isinstance(y.func, ast.Name) and y.func.id in ("len", "enumerate") and len(y.args) == 1 and y.args[0] is x:
+                                    par_ok = True
+                            if not par_ok:
+                                resized = True
+                    if resized:
+                        continue
+                    if any(isinstance(x, ast.Name) and x.id in (iv, vv) and isinstance(x.ctx, (ast.Store, ast.Del)) for b in st.body for x in ast.walk(b)):
+                        continue
+                    first = ast.Assign(targets=[ast.Name(id=vv, ctx=ast.Store())],
+                                       value=ast.Subscript(value=ast.Name(id=L, ctx=ast.Load()), slice=ast.Name(id=iv, ctx=ast.Load()), ctx=ast.Load()))
+                    st.iter = ast.Call(func=ast.Name(id="range", ctx=ast.Load()), args=[ast.Call(func=ast.Name(id="len", ctx=ast.Load()), args=[ast.Name(id=L, ctx=ast.Load())], keywords=[])], keywords=[])
+                    st.target = ast.Name(id=iv, ctx=ast.Store())
+                    ast.copy_location(first, st.body[0])
+                    st.body.insert(0, first)
+                    ast.fix_missing_locations(st)
+                    n += 1
     return n
 
 
@@ -2001,6 +2117,7 @@ def normalise_program(trees):
         n_ += normalise_shortcircuit(tree)
         n_ += normalise_table_unroll(tree)
         n_ += normalise_try_getattr(tree)
+        n_ += normalise_enumerate_live(tree)
         if n_:
             reshaped[path] = n_
     inv0 = inventory()
